@@ -955,7 +955,7 @@ class Interp:
 
                     def wcmp(a, b):
                         r0 = self._cmp_keys(keys[a], keys[b], desc)
-                        if r0 == 0 and a != b:
+                        if r0 == 0 and a != b and not pdshim.ALLOW_WINDOW_TIES[0]:
                             # the properties (C01/C18/C27) speak about total window orders only
                             raise OutsideClaim("window order is not total (tie)")
                         return r0
@@ -969,7 +969,7 @@ class Interp:
                         last = pos
                         while last + 1 < len(sp) and self._cmp_keys(keys[sp[last + 1]], keys[i], desc) == 0:
                             last += 1
-                        if last > pos or any(decide(kc.null, (kc,)) for kc in keys[i]):
+                        if (last > pos or any(decide(kc.null, (kc,)) for kc in keys[i])) and not pdshim.ALLOW_WINDOW_TIES[0]:
                             # the properties (C01/C18/C27) speak about total window orders with non-null keys only
                             raise OutsideClaim("window order is not total (tie or null order key)")
                         frame = sp[: last + 1]
